@@ -37,6 +37,9 @@ var c13Pool = []vfIP{
 	{Class: "deprecated", Addr: "2001:db8:0:7::1/64", Flags: "D"},
 	{Class: "gua64-a-temp", Addr: "2001:db8:1::3/64", Flags: "T"},
 	{Class: "low64", Addr: "2001:db7:ffff:ffff::9/64", Flags: "M"},
+	// Ineligible addresses that sort *below* every eligible address of their /64.
+	{Class: "gua64-a-temp-lowest", Addr: "2001:db8:1::/64", Flags: "T"},
+	{Class: "gua64-b-tentative-lowest", Addr: "2001:db8:2::/64", Flags: "N"},
 }
 
 type c13Stanza struct {
